@@ -1208,6 +1208,15 @@ class Ctx:
         m = self.ex.models.const(self, name)
         if m is not None:
             return m
+        mo = re.match(r"(?:core|std)::num::<impl (u8|u16|u32|u64|usize|i8|i16|i32|i64|isize)>::(MAX|MIN)$", name)
+        if mo:
+            ty, which = mo.group(1), mo.group(2)
+            bits = INT_BITS[ty]
+            if ty in SIGNED:
+                v = (1 << (bits - 1)) - 1 if which == "MAX" else (1 << bits) - (1 << (bits - 1))     # two's complement bit pattern
+            else:
+                v = (1 << bits) - 1 if which == "MAX" else 0
+            return mk_int(v, ty)
         if f is None and re.match(r"(?:[A-Za-z_][A-Za-z0-9_]*::)*[A-Z][A-Za-z0-9]*$", name) and name.split("::")[-1] in UNIT_STRUCTS:
             return Agg(name.split("::")[-1], None, [])
         if f is None and re.match(r"(?:[A-Za-z_][A-Za-z0-9_]*::)*PhantomData::<.*>$", name):
